@@ -18,6 +18,7 @@ Main actions:
     ["toy_image", text]           -> {"error": ...} | {"cells": [[addr, value]...], "max_pc": n, "range": [lo, hi]}
     ["toy_run", text, maxsteps]   -> final (accu, pc, ir, instructions, cycles, branches, cells) or {"error": ...}
     ["rv_run", text, mode, steps] -> registers, memory words, output, counters or {"error": ...}
+    ["call", module, function, args] -> whatever that function returns (JSON-able): a check's own probe
 """
 from __future__ import annotations
 
@@ -73,6 +74,11 @@ def _main(act):
     from architecture_simulator.simulation.toy_simulation import ToySimulation
 
     kind = act[0]
+    if kind == "call":
+        # ["call", module, function, [args]]: a check's own probe function, run in this pristine interpreter
+        import importlib
+
+        return getattr(importlib.import_module(act[1]), act[2])(*act[3])
     if kind not in ("rv_image", "toy_image", "toy_run", "rv_run"):
         raise ValueError(kind)
     try:
